@@ -283,6 +283,8 @@ func runC11(p *Prog, r *Report) {
 	r.Explain = append(r.Explain, "R-SIB/iter: two Cmap implementations whose Iter methods build the same concrete iterator type have the same Lookup function: the iterator decides what the enumeration yields, so sharing it between formats whose lookups differ (format 13 is many-to-one, format 12 is not) makes one of them disagree with itself.")
 	ruleSharedIter(p, r, "font", "Cmap", "Lookup", "Iter", 5)
 	ruleCoverageSource(p, r)
+	r.Explain = append(r.Explain, "R-ORDERDEP: no function of the font packages and of fontscan hands out an element of a map on the first iteration of a range over it without a test (the subtable chosen by ProcessCmap, and with it lookup, enumeration and the coverage computed by the scanner, must be a function of the font, not of the iteration order of a map).")
+	ruleOrderDep(p, r, []string{"font", "font/opentype", "font/opentype/tables", "font/cff", "fontscan", "language", "unicodedata", "shaping", "harfbuzz", "segmenter"}, 5)
 	le := newLitEval(p)
 	ruleSortedRanges(p, r, le, "language", "ScriptRanges", "Start", "End", 900)
 	r.Assumptions = append(r.Assumptions, "the per-format Lookup/Iter implementations (cmap0/4/6/10/12/13) are NOT compared with each other: zero-glyph entries and delta wrap-around inside cmap4 are runtime arithmetic")
@@ -291,5 +293,6 @@ func runC11(p *Prog, r *Report) {
 
 func controlsC11(cp *Prog, r *Report) {
 	expectControl(r, "R-SIB", func(cr *Report) { ruleSibling(cp, cr, "sib", "Map", "Lookup", []string{"Iter"}, 2) }, "sib.remapBad")
+	expectControl(r, "R-ORDERDEP", func(cr *Report) { ruleOrderDep(cp, cr, []string{"sib"}, 2) }, "sib.pickBad/range m")
 	expectControl(r, "R-SIB/iter", func(cr *Report) { ruleSharedIter(cp, cr, "sib", "Map", "Lookup", "Iter", 3) }, "sib.seqIter")
 }
